@@ -293,11 +293,27 @@ impl Gen {
                     let pick = if prof == Profile::Metrics { sc.pick_kind(&mut self.rng, |k| !k.tracing()) } else { sc.pick(&mut self.rng) };
                     pick.map(|x| MOp::Touch { o: x.0 })
                 }
-                6 => sc.pick(&mut self.rng).map(|p| MOp::BarrierOnly {
-                    p: p.0,
-                    c: if self.rng.chance(3, 4) { sc.pick_kind(&mut self.rng, |k| k != Kind::Set).map(|x| x.0) } else { None },
-                    mode: self.rng.below(6) as u8,
-                }),
+                6 => {
+                    // half of the time the child is a fresh (white, unlinked) allocation
+                    let fresh = if self.rng.chance(1, 2) {
+                        let al = self.gen_alloc(&mut sc);
+                        let MOp::Alloc { id, kind, .. } = al else { unreachable!() };
+                        if kind != Kind::Set {
+                            body.push(al);
+                            Some(id)
+                        } else {
+                            sc.avail.pop();
+                            None
+                        }
+                    } else {
+                        None
+                    };
+                    sc.pick_kind(&mut self.rng, |k| k != Kind::Set).map(|p| MOp::BarrierOnly {
+                        p: p.0,
+                        c: if fresh.is_some() { fresh } else if self.rng.chance(3, 4) { sc.pick_kind(&mut self.rng, |k| k != Kind::Set).map(|x| x.0) } else { None },
+                        mode: self.rng.below(6) as u8,
+                    })
+                }
                 7 => {
                     let p = sc.pick_kind(&mut self.rng, |k| k == Kind::Node);
                     let c0 = sc.pick(&mut self.rng);
